@@ -249,6 +249,28 @@ def asyncclose_cells(h, im, diff):
     return out
 
 
+def parallelreplay_cells(h, im, diff):
+    """wal-replay-parallel: every partition is re-applied by its own goroutine; a failing cell is explained when the value found
+    and the value wanted are both values of records of that cell in the image's live log, in DIFFERENT partitions"""
+    if not h.get("par") or not diff:
+        return []
+    where = {}
+    # a second-level image: the first recovery (parallel replay, flush, log removal) has already made its order durable
+    for p, recs in enumerate((im.get("_parent_parts") if im["sub"] >= 0 else im.get("parts")) or []):
+        for i in recs:
+            where[i] = p
+    out = []
+    for c in diff:
+        if not (c["wok"] and c["gok"]):
+            continue
+        ws = [(i, v) for (i, v) in writes_to(h, im["acked"], im["inflight"] if im["inflight"] >= 0 else None, c) if i in where]
+        pw = {where[i] for (i, v) in ws if v == c["want"]}
+        pg = {where[i] for (i, v) in ws if v == c["got"]}
+        if pw and pg and (len(pw | pg) > 1):
+            out.append(c)
+    return out
+
+
 def classify(h, im, dff, code, parent_torn):
     """ids of the known findings that together explain EVERY failing cell, or [] """
     if not dff:
@@ -258,6 +280,9 @@ def classify(h, im, dff, code, parent_torn):
     cc = asyncclose_cells(h, im, dff)
     if cc and len(cc) == len(dff):
         return ["C01-asyncclose"]
+    pc = parallelreplay_cells(h, im, dff)
+    if pc and len(pc) == len(dff):
+        return ["C01-parallelreplay"]
     ac = asyncreplay_cells(h, im, dff)
     rest = [c for c in dff if c not in ac]
     fids = ["C01-asyncreplay"] if ac else []
@@ -312,7 +337,7 @@ def main(ck):
         rp = json.load(open(ck.replay))
         hf = os.path.join(ck.work, "replay_history.json")
         json.dump({"case": rp["case"], "nwal": rp["nwal"], "nser": rp["nser"], "nmst": rp.get("nmst", 1), "pre": rp.get("pre", 0),
-                   "auto": rp.get("auto", False), "async": rp.get("async", False), "ops": rp["ops"]}, open(hf, "w"))
+                   "auto": rp.get("auto", False), "async": rp.get("async", False), "par": rp.get("par", False), "ops": rp["ops"]}, open(hf, "w"))
         rc, out = ck.run([binp, "1", hf], timeout=540 if quick else 3000)
     else:
         rc, out = ck.run([binp, str(n)], timeout=540 if quick else 6000)
@@ -363,6 +388,7 @@ def main(ck):
             for im in h["images"]:
                 if im["sub"] < 0:
                     parent = im["parts"] or []
+                im["_parent_parts"] = parent
                 if im.get("dump") is None:
                     im["dump"] = []
                 imgs.append(image_coq(h, im, parent))
@@ -409,7 +435,7 @@ def main(ck):
                     idx, len(codes.get(hi) or []), len(hs[hi]["images"]), hs[hi]["case"], o[-300:]))
     # ---- verdicts ----
     nimg = 0
-    fail_known = {"C01-walphase": 0, "C01-asyncreplay": 0, "C01-asyncclose": 0, "C01-idxtxn": 0, "C01-walheadereof": 0}
+    fail_known = {"C01-walphase": 0, "C01-asyncreplay": 0, "C01-asyncclose": 0, "C01-parallelreplay": 0, "C01-idxtxn": 0, "C01-walheadereof": 0}
     nviol = 0
     model_disagree = []
     crashk = {}
@@ -419,6 +445,7 @@ def main(ck):
     what_known = {"C01-walphase": "an acknowledged overwrite is reverted to an older acknowledged value after crash + restart (WAL replay order)",
                   "C01-asyncreplay": "wal-replay-async: a write acknowledged while the log is still being re-applied is reverted to the older logged value by the replay",
                   "C01-asyncclose": "wal-replay-async: a clean shutdown while the log is still being re-applied removes the unread log files: acknowledged rows are gone after the restart",
+                  "C01-parallelreplay": "wal-replay-parallel: the partitions are re-applied concurrently, an acknowledged overwrite whose two records sit in different partitions can come back as the older value",
                   "C01-idxtxn": "shard cannot be opened after a crash that leaves two pending series-index transaction files",
                   "C01-walheadereof": "a torn WAL record consisting of exactly its 5 header bytes makes replay apply stale buffer contents"}
     for hi, h in enumerate(hs):
@@ -483,7 +510,7 @@ def main(ck):
                     nviol += 1
                     if nviol <= 3:
                         ck.violation({"kind": "direct-oracle", "what": what, "case": h["case"], "nwal": h["nwal"], "nser": h["nser"], "nmst": h.get("nmst", 1),
-                                      "pre": h.get("pre", 0), "auto": h.get("auto", False), "async": h.get("async", False), "ops": h["ops"],
+                                      "pre": h.get("pre", 0), "auto": h.get("auto", False), "async": h.get("async", False), "par": h.get("par", False), "ops": h["ops"],
                                       "crash": {"at": im["at"], "during_op": im["op"], "acked_ops": im["acked"], "inflight_op": im["inflight"],
                                                 "torn_bytes": im["torn"], "recovery_mutations_before_second_crash": im["sub"],
                                                 "live_wal_parts": im["parts"], "pending_index_txn": im.get("txn"), "async_replay": a},
@@ -504,6 +531,7 @@ def main(ck):
     ck.cov["writes_acknowledged_while_a_flush_was_held"] = sum(h["flags"].get("paused_writes", 0) for h in hs)
     ck.cov["torn_prefix_sweep_images"] = sum(h["flags"].get("torn_all", 0) for h in hs)
     ck.cov["writers_held_at_their_log_append"] = sum(h["flags"].get("held_writers", 0) for h in hs)
+    ck.cov["parallel_replay_histories"] = sum(1 for h in hs if h.get("par"))
     ck.cov["two_measurement_histories"] = sum(1 for h in hs if h.get("nmst", 1) > 1)
     ck.cov["known_finding_images"] = fail_known
     ck.cov["variant_implemented"] = "current (known findings reproduce)" if any(fail_known.values()) else "repaired on the explored domain"
